@@ -124,6 +124,8 @@ pub enum ThreadKind {
     Exiter,
     /// ordinary Rust thread blocked in a long sleep
     Sleeper,
+    /// keeps changing the descriptor table: dup2(/dev/null, 3000 + i % 256), close the previous one
+    FdChurner,
 }
 
 #[derive(Serialize, Deserialize, Clone, Debug)]
